@@ -9,8 +9,11 @@ import random
 
 from rig.place_and_route import Machine, Cores, SDRAM, SRAM
 from rig.place_and_route.allocate.greedy import allocate
-from rig.place_and_route.constraints import ReserveResourceConstraint, AlignResourceConstraint
+from rig.place_and_route.constraints import (ReserveResourceConstraint, AlignResourceConstraint, LocationConstraint,
+                                             SameChipConstraint, RouteEndpointConstraint)
 from rig.place_and_route.exceptions import InsufficientResourceError
+from rig.netlist import Net
+from rig.routing_table import Routes
 
 RNAME = {Cores: "Cores", SDRAM: "SDRAM", SRAM: "SRAM"}
 
@@ -19,7 +22,15 @@ def rname(r):
     return RNAME.get(r, str(r))
 
 
-def make_trace(vertices_resources, machine, constraints, placements, label="", rebase=None):
+def _hashable(v):
+    try:
+        hash(v)
+        return True
+    except TypeError:
+        return False
+
+
+def make_trace(vertices_resources, machine, constraints, placements, label="", rebase=None, nets=()):
     """rebase: {resource: BASE} for the "huge" family - every quantity of that resource is BASE + something small
     and the bottom [0, BASE) of every chip's range is reserved globally.  TLC's integers are 32-bit, so the trace
     carries a mechanical, order-preserving projection of the positions of such a resource (exact integer
@@ -62,27 +73,33 @@ def make_trace(vertices_resources, machine, constraints, placements, label="", r
             reqs.append([vidx[v], xy[0], xy[1], rname(r), size])
     evs = []
     try:
-        alloc = allocate(vertices_resources, [], machine, constraints, placements)
+        alloc = allocate(vertices_resources, list(nets), machine, constraints, placements)
     except Exception as ex:      # judged by the spec: only InsufficientResourceError is permitted
         evs.append(["raise", type(ex).__name__])
     else:
-        for v, res in alloc.items():
-            xy = placements[v]
-            for r, sl in res.items():
-                step_ok = sl.step is None
-                lo, hi = sl.start, sl.stop
-                if r in rebase and step_ok:
-                    b = rebase[r]
-                    if lo >= b:
-                        lo, hi = lo - (b - 64), hi - (b - 64)
-                    elif lo < hi:
-                        lo, hi = 0, 1
-                    elif lo > 0:
-                        lo = hi = 8 + lo % 8
-                if not (-2 ** 30 < lo < 2 ** 30 and -2 ** 30 < hi < 2 ** 30):
-                    lo, hi = -2, -1          # far outside the chip's range: the size and in-range clauses reject it
-                evs.append(["grant", vidx[v], xy[0], xy[1], rname(r), lo if step_ok else -1, hi])
-        evs.append(["ok"])
+        # (a result of another shape than {vertex: {resource: slice}} - an unknown vertex, a value that is no slice,
+        # an open end - becomes an event the specification knows no clause for, never a crash of the driver)
+        try:
+            for v, res in alloc.items():
+                xy = placements.get(v, (-1, -1)) if _hashable(v) else (-1, -1)
+                vi = vidx.get(v, -1) if _hashable(v) else -1
+                for r, sl in res.items():
+                    step_ok = sl.step is None
+                    lo, hi = int(sl.start), int(sl.stop)
+                    if r in rebase and step_ok:
+                        b = rebase[r]
+                        if lo >= b:
+                            lo, hi = lo - (b - 64), hi - (b - 64)
+                        elif lo < hi:
+                            lo, hi = 0, 1
+                        elif lo > 0:
+                            lo = hi = 8 + lo % 8
+                    if not (-2 ** 30 < lo < 2 ** 30 and -2 ** 30 < hi < 2 ** 30):
+                        lo, hi = -2, -1          # far outside the chip's range: the size and in-range clauses reject it
+                    evs.append(["grant", vi, xy[0], xy[1], rname(r), lo if step_ok else -1, hi])
+            evs.append(["ok"])
+        except Exception as ex:
+            evs.append(["malformed result", "%s: %s" % (type(ex).__name__, ex)])
     return dict(caps=caps, gres=gres, lres=lres, aligns=aligns, reqs=reqs, ev=evs, label=label)
 
 
@@ -221,6 +238,284 @@ def huge_problem(rng):
     return dict(items), m, cons, pl, {SDRAM: base}
 
 
+class SystemReservation(ReserveResourceConstraint):
+    """a caller's own subclass of the reservation constraint (it is a ReserveResourceConstraint)"""
+
+
+class WordAlignment(AlignResourceConstraint):
+    """a caller's own subclass of the alignment constraint"""
+
+
+def _free_after(m, cons, xy, r):
+    free = m[xy][r]
+    for c in cons:
+        if isinstance(c, ReserveResourceConstraint) and c.resource is r and c.location in (None, xy):
+            free -= c.reservation.stop - c.reservation.start
+    return free
+
+
+def comb_problem(rng):
+    """"any number of global and per-chip reserved ranges per resource (adjacent, interleaved with free gaps)", "any
+    alignment": 4-16 reservations of one resource (the random family stops at 6 per chip), either a comb over the
+    whole range (adjacent teeth, nested and repeated ranges, global and per-chip mixed, list order shuffled) with
+    alignments up to and beyond the capacity, or stacks of nested reservations at the two ends with no alignment (the
+    completeness sentence applies)."""
+    w, h = rng.randint(1, 2), rng.randint(1, 2)
+    cap = rng.randint(12, 48)
+    r, other = rng.choice(((Cores, SDRAM), (SDRAM, Cores), (SRAM, Cores)))
+    m = Machine(w, h, chip_resources={r: cap, other: rng.randint(1, 6)})
+    chips = list(m)
+    target = rng.choice(chips)
+
+    def where():
+        u = rng.random()
+        return None if u < 0.5 else (target if u < 0.9 else rng.choice(chips))
+    cons = []
+    easy = rng.random() < 0.4
+    if easy:
+        for _ in range(rng.randint(0, 7)):
+            cons.append(ReserveResourceConstraint(r, slice(0, rng.randint(1, cap // 3)), where()))
+        for _ in range(rng.randint(0, 7)):
+            cons.append(ReserveResourceConstraint(r, slice(cap - rng.randint(1, cap // 3), cap), where()))
+    else:
+        pos, teeth = rng.randint(0, 2), []
+        dense = rng.random() < 0.35       # teeth one or two apart up to a free stretch at the top: a request wider
+        while pos < (cap - 8 if dense else cap):     # than the gaps has to pass every one of them
+            n = min(rng.randint(1, 2 if dense else 4), cap - pos)
+            if dense or rng.random() < 0.55:
+                teeth.append((pos, pos + n))
+            pos += n + (rng.randint(1, 2) if dense else 0)
+        for _ in range(rng.randint(0, 4)):
+            if teeth:
+                a, b = rng.choice(teeth)
+                u = rng.random()
+                if u < 0.4:
+                    teeth.append((a, b))                              # the same range again
+                elif u < 0.8:
+                    a2 = rng.randint(a, b - 1)
+                    teeth.append((a2, rng.randint(a2 + 1, b)))        # a range inside another
+                else:
+                    teeth.append((a, min(cap, b + rng.randint(1, 3))))    # overlapping the next gap / tooth
+        teeth = teeth[:16]
+        for a, b in teeth:
+            cons.append((SystemReservation if rng.random() < 0.2 else ReserveResourceConstraint)(r, slice(a, b), where()))
+        if rng.random() < 0.5:
+            al = rng.choice((2, 3, 4, 5, 6, 7, 8, 12, 16, 32, 64, cap - 1, cap, cap + 1))
+            cons.append((WordAlignment if rng.random() < 0.2 else AlignResourceConstraint)(r, al))
+    rng.shuffle(cons)
+    vr, pl = {}, {}
+    n = 0
+    for xy in [target] + [c for c in chips if c != target and rng.random() < 0.4]:
+        budget = _free_after(m, cons, xy, r) if easy else cap
+        exact = easy and rng.random() < 0.5                 # the chip is filled to the last unit
+        for k in range(rng.randint(1, 8)):
+            q = rng.choice((0, 1, 1, 1, 2, 2, 3, 4))
+            if easy:
+                q = min(q, max(budget, 0)) if rng.random() < 0.93 else q
+            budget -= q
+            vr["c%d" % n] = {r: q} if rng.random() < 0.8 else {r: q, other: rng.randint(0, 1)}
+            pl["c%d" % n] = xy
+            n += 1
+        if exact and budget > 0:
+            vr["c%d" % n] = {r: budget}
+            pl["c%d" % n] = xy
+            n += 1
+    items = list(vr.items())
+    rng.shuffle(items)
+    vr = dict(items)
+    items = list(pl.items())
+    rng.shuffle(items)
+    return vr, m, cons, dict(items)
+
+
+class Vertex(object):
+    """a caller's vertex object (hashable by identity, not orderable)"""
+
+
+def mixed_problem(rng, extra):
+    """A random problem as its caller would really hand it over: vertices that are arbitrary hashable objects (the
+    pinned tests use object()), one requirement dictionary shared by several vertices, the full constraint list of the
+    place-and-route run (location, same-chip and route-endpoint constraints between the reservations), subclasses of
+    the two constraints allocate() reads, the nets of the problem, and a resource identifier of the caller's own."""
+    vr0, m, cons, pl0 = comb_problem(rng) if rng.random() < 0.25 else random_problem(rng)
+    kind = rng.choice(("object", "int", "tuple", "mixed"))
+    makers = {"object": lambda i: Vertex(), "int": lambda i: 1000 - 7 * i, "tuple": lambda i: ("pop", i % 3, i),
+              "mixed": lambda i: rng.choice((Vertex(), i, ("t", i), "s%d" % i, frozenset([i, -1]), float(i) + 0.5))}
+    names = {}
+    for i, v in enumerate(vr0):
+        names[v] = makers[kind](i)
+    if extra is not None and vr0:
+        # a resource of the caller's own on every chip, reserved at one end, requested by some vertices
+        cap = rng.randint(0, 12)
+        m.chip_resources[extra] = cap
+        for e in m.chip_resource_exceptions.values():
+            e[extra] = cap + rng.randint(0, 3)
+        if cap and rng.random() < 0.5:
+            n = rng.randint(1, max(1, cap // 3))
+            cons.insert(rng.randint(0, len(cons)), ReserveResourceConstraint(extra, slice(0, n) if rng.random() < 0.5
+                                                                             else slice(cap - n, cap)))
+        budget = {}
+        for v in vr0:
+            if rng.random() < 0.5:
+                b = budget.setdefault(pl0[v], _free_after(m, cons, pl0[v], extra))
+                q = rng.randint(0, max(0, b // 2))
+                budget[pl0[v]] = b - q
+                vr0[v] = dict(vr0[v])
+                vr0[v][extra] = q
+    # one requirement dictionary shared by the vertices that need the same
+    shared = {}
+    vr = {}
+    for v, need in vr0.items():
+        key = tuple(sorted((rname(r), q) for r, q in need.items()))
+        vr[names[v]] = shared.setdefault(key, need) if rng.random() < 0.7 else dict(need)
+    pl = {names[v]: xy for v, xy in pl0.items()}
+    vs = list(vr)
+    others = []
+    for v in vs:
+        if rng.random() < 0.3:
+            others.append(LocationConstraint(v, pl[v]))
+        if rng.random() < 0.1:
+            others.append(RouteEndpointConstraint(v, rng.choice(list(Routes))))
+    by_chip = {}
+    for v in vs:
+        by_chip.setdefault(pl[v], []).append(v)
+    for group in by_chip.values():
+        if len(group) > 1 and rng.random() < 0.4:
+            others.append(SameChipConstraint(group[:rng.randint(2, len(group))]))
+    cons = [(SystemReservation(c.resource, c.reservation, c.location)
+             if type(c) is ReserveResourceConstraint and rng.random() < 0.2 else
+             WordAlignment(c.resource, c.alignment) if type(c) is AlignResourceConstraint and rng.random() < 0.2 else c)
+            for c in cons]
+    for o in others:
+        cons.insert(rng.randint(0, len(cons)), o)
+    nets = []
+    for _ in range(rng.randint(0, 3)):
+        if vs:
+            nets.append(Net(rng.choice(vs), [rng.choice(vs) for _ in range(rng.randint(1, 3))], rng.choice((1.0, 2.5))))
+    return vr, m, cons, pl, nets
+
+
+def history(rng):
+    """The caller's history: ONE machine, constraint list, requirement and placement dictionary, handed to allocate()
+    again and again and changed IN PLACE between the calls (a capacity of the machine or of one chip, a reservation
+    added / removed / moved / resized, the alignment, one vertex's requirement, one vertex's chip), or not changed at
+    all.  Yields the problem before every call; every call is a trace of its own, judged against the values its
+    arguments held when it was made."""
+    vr, m, cons, pl = comb_problem(rng) if rng.random() < 0.3 else random_problem(rng)
+    if not vr:
+        return
+    yield "first", vr, m, cons, pl
+    resources = list(m.chip_resources)
+
+    def top(r, xy):        # reservations must stay inside the chip (ReserveResourceConstraint's documentation)
+        return max([c.reservation.stop for c in cons if isinstance(c, ReserveResourceConstraint) and
+                    c.resource is r and (c.location is None or xy is None or c.location == xy)] + [0])
+
+    def resized(r, xy, old):
+        """a chip's new capacity: a little more or less, or (half of the time) within a unit or two of what the
+        vertices now on the chip ask for plus what is reserved there - so that the change decides the outcome"""
+        if rng.random() < 0.5:
+            want = old + rng.randint(-3, 3)
+        else:
+            want = (old - _free_after(m, cons, xy, r) + sum(vr[v].get(r, 0) for v in vr if pl[v] == xy) +
+                    rng.choice((-2, -1, 0, 0, 1)))
+        return max(top(r, xy if xy in m.chip_resource_exceptions else None), want, 0)
+    for _ in range(rng.randint(2, 5)):
+        u = rng.choice(("repeat", "cap", "cap", "chipcap", "chipcap", "newexc", "newexc", "res+", "res-", "res~",
+                        "align", "need", "move"))
+        r = rng.choice(resources)
+        reserves = [c for c in cons if isinstance(c, ReserveResourceConstraint)]
+        aligns = [c for c in cons if isinstance(c, AlignResourceConstraint)]
+        xy = rng.choice(sorted(set(pl.values())))
+        if u == "cap":
+            m.chip_resources[r] = max(top(r, None), resized(r, xy, m.chip_resources[r]))
+        elif u == "chipcap" and xy in m.chip_resource_exceptions:
+            m.chip_resource_exceptions[xy][r] = resized(r, xy, m[xy][r])
+        elif u == "newexc" and xy not in m.chip_resource_exceptions:
+            m[xy] = {q: max(top(q, xy), resized(q, xy, m[xy][q])) for q in resources}
+        elif u == "res+":
+            cap = min(m[c][r] for c in m)
+            if cap > 0:
+                a = rng.choice((0, rng.randint(0, cap - 1)))
+                cons.insert(rng.randint(0, len(cons)),
+                            ReserveResourceConstraint(r, slice(a, rng.randint(a + 1, cap)), rng.choice((None, xy))))
+        elif u == "res-" and reserves:
+            cons.remove(rng.choice(reserves))
+        elif u == "res~" and reserves:
+            c = rng.choice(reserves)
+            cap = min(m[q][c.resource] for q in m)
+            if rng.random() < 0.5 and cap > 0:
+                a = rng.randint(0, cap - 1)
+                c.reservation = slice(a, rng.randint(a + 1, cap))
+            elif c.reservation.stop <= cap:
+                c.location = rng.choice((None, xy))
+        elif u == "align":
+            if aligns and rng.random() < 0.7:
+                rng.choice(aligns).alignment = rng.choice((1, 2, 3, 4, 8))
+            else:
+                cons.append(AlignResourceConstraint(r, rng.choice((2, 4))))
+        elif u == "need":
+            v = rng.choice(list(vr))
+            if vr[v]:
+                q = rng.choice(list(vr[v]))
+                vr[v][q] = max(0, vr[v][q] + rng.randint(-2, 2))
+        elif u == "move":
+            v = rng.choice(list(pl))
+            dst = rng.choice(list(m))
+            if all(_free_after(m, cons, dst, q) >= n for q, n in vr[v].items()):
+                pl[v] = dst
+        yield u, vr, m, cons, pl
+
+
+def populous_problem(rng, kind):
+    """Far ends of "all vertex sets on all machines": one chip shared by 40-120 vertices that fill it to the last
+    unit between reservations at both ends, and a machine of 100-190 chips (some dead, some with resources of their
+    own) with vertices on nearly every live chip."""
+    if kind == "chip":
+        n = rng.randint(40, 120)
+        sizes = [rng.choice((0, 1, 1, 2, 3)) for _ in range(n)]
+        lo, hi = rng.randint(0, 5), rng.randint(0, 5)
+        cap = lo + sum(sizes) + hi
+        m = Machine(2, 1, chip_resources={SDRAM: cap, Cores: n})
+        xy = rng.choice(list(m))
+        cons = []
+        if lo:
+            cons.append(ReserveResourceConstraint(SDRAM, slice(0, lo), rng.choice((None, xy))))
+        if hi:
+            cons.append(ReserveResourceConstraint(SDRAM, slice(cap - hi, cap), rng.choice((None, xy))))
+        vr = {"p%d" % i: {SDRAM: q, Cores: 1} for i, q in enumerate(sizes)}
+        pl = {v: xy for v in vr}
+        return vr, m, cons, pl
+    w, h = rng.randint(10, 16), rng.randint(10, 12)
+    dead = {(rng.randrange(w), rng.randrange(h)) for _ in range(rng.randint(1, 12))}
+    m = Machine(w, h, chip_resources={Cores: 17, SDRAM: 40}, dead_chips=dead)
+    live = list(m)
+    for xy in rng.sample(live, 10):
+        m[xy] = {Cores: rng.randint(1, 17), SDRAM: rng.randint(20, 50)}
+    cons = [ReserveResourceConstraint(Cores, slice(0, 1)), ReserveResourceConstraint(SDRAM, slice(0, 8))]
+    for xy in rng.sample(live, 6):
+        cons.append(ReserveResourceConstraint(SDRAM, slice(8, 8 + rng.randint(1, 6)), xy))
+        if rng.random() < 0.5:
+            cons.append(ReserveResourceConstraint(Cores, slice(m[xy][Cores] - 1, m[xy][Cores]), xy))
+    rng.shuffle(cons)
+    vr, pl = {}, {}
+    for xy in live:
+        if rng.random() < 0.9:
+            free = {r: _free_after(m, cons, xy, r) for r in (Cores, SDRAM)}
+            for k in range(rng.randint(1, 3)):
+                need = {Cores: min(free[Cores], rng.randint(0, 2)), SDRAM: min(free[SDRAM], rng.randint(0, 9))}
+                if k == 2 and rng.random() < 0.5:
+                    need = dict(free)             # takes all that is left
+                for r in need:
+                    free[r] -= need[r]
+                v = (xy, k)
+                vr[v] = need
+                pl[v] = xy
+    items = list(pl.items())
+    rng.shuffle(items)
+    return vr, m, cons, dict(items)
+
+
 def run(chk):
     rng = random.Random(chk.seed)
     chk.design("AllocateDesign", "AllocateDesign_%s.cfg" % chk.tier,
@@ -254,6 +549,43 @@ def run(chk):
         t = make_trace(vr, m, cons, pl, "huge (positions from %d upwards shifted to 64)" % rb[SDRAM], rebase=rb)
         traces.append(t)
         chk.note_case((rb[SDRAM], t["caps"], t["gres"], t["lres"], t["aligns"], t["reqs"]), nontrivial=bool(t["reqs"]))
+    # ---- families added by the coverage audit (see the docstrings of the generators)
+    arng = random.Random(chk.seed + 11)
+    for i in range(chk.pick(500, 10000)):
+        vr, m, cons, pl = comb_problem(arng)
+        t = make_trace(vr, m, cons, pl, "comb")
+        traces.append(t)
+        chk.note_case(("comb", t["caps"], t["gres"], t["lres"], t["aligns"], t["reqs"]), nontrivial=bool(t["reqs"]))
+    import sentinel as _sentinel
+    tokens = _sentinel.create("Tokens")
+    for i in range(chk.pick(500, 10000)):
+        extra = arng.choice((None, None, "DTCM", tokens, ("bus", 1)))
+        vr, m, cons, pl, nets = mixed_problem(arng, extra)
+        t = make_trace(vr, m, cons, pl, "mixed (caller's own vertex objects, constraints of other kinds, subclasses, "
+                       "shared requirement dictionaries, nets%s)" % (", resource %r" % (extra,) if extra is not None else ""),
+                       nets=nets)
+        traces.append(t)
+        chk.note_case(("mixed", t["caps"], t["gres"], t["lres"], t["aligns"], t["reqs"]), nontrivial=bool(t["reqs"]))
+    nhist = 0
+    for i in range(chk.pick(150, 3000)):
+        for k, (what, vr, m, cons, pl) in enumerate(history(arng)):
+            t = make_trace(vr, m, cons, pl, "history %d call %d (%s, same objects changed in place)" % (i, k, what))
+            traces.append(t)
+            nhist += 1
+            chk.note_case(("history", i, k, t["caps"], t["gres"], t["lres"], t["aligns"], t["reqs"]),
+                          nontrivial=bool(t["reqs"]))
+    chk.count("history calls", nhist)
+    for i in range(chk.pick(2, 20)):
+        for kind in ("chip", "machine"):
+            vr, m, cons, pl = populous_problem(arng, kind)
+            t = make_trace(vr, m, cons, pl, "populous " + kind)
+            traces.append(t)
+            chk.note_case(("populous", t["gres"], t["lres"], t["reqs"]))
+    chk.count("most reservations applying to one (chip, resource) in a trace",
+              max(max([sum(1 for g in t["gres"] if g[0] == c[2]) +
+                       sum(1 for g in t["lres"] if (g[0], g[1], g[2]) == (c[0], c[1], c[2])) for c in t["caps"]] + [0])
+                  for t in traces))
+    chk.count("most grants in one trace", max(len(t["ev"]) - 1 for t in traces))
     nraise = sum(1 for t in traces if t["ev"][-1][0] == "raise")
     chk.count("calls that raised", nraise)
     chk.count("calls that returned", len(traces) - nraise)
@@ -261,7 +593,11 @@ def run(chk):
                 "machines with per-chip exceptions, 0-3 global/per-chip reservations per resource (half of the problems "
                 "with end-only reservations and no alignment so that the completeness clause applies), alignments, "
                 "shuffled vertex orders, zero-size requests; then resources counted beyond 2^31 / 2^53 / 2^60 units with the "
-                "bottom [0, BASE) reserved (positions travel shifted, see make_trace); non-trivial = at least one request (and, for the small "
+                "bottom [0, BASE) reserved (positions travel shifted, see make_trace); then combs of 4-16 reservations / nested "
+                "stacks at the ends with alignments up to beyond the capacity, problems with the caller's own vertex objects, "
+                "constraints of other kinds, constraint subclasses, shared requirement dictionaries, nets and resource "
+                "identifiers, histories of calls on the same objects changed in place, one chip with 40-120 vertices and "
+                "machines of 100-190 chips; non-trivial = at least one request (and, for the small "
                 "layouts, at least one reservation); distinct = distinct (capacities, reservations, alignments, requests)")
     chk.exhaustive = False
     chk.sample(traces[len(traces) // 7]); chk.sample(traces[-1]); chk.sample(traces[-2])
@@ -302,6 +638,8 @@ def selftest(chk):
         (mut(lambda ev: (ev[1].__setitem__(5, 6), ev[1].__setitem__(6, 7))), "InRange"),
         (dict(good, ev=[["raise", "KeyError"]]), "OnlyDocumentedError"),
         (dict(good, aligns=[], ev=[["raise", "InsufficientResourceError"]]), "Complete"),
+        (dict(good, ev=[["malformed result", "AttributeError: 'tuple' object has no attribute 'step'"]]), "UnknownEvent"),
+        (mut(lambda ev: ev[1].__setitem__(1, -1)), "Requested"),        # a vertex the caller never named
     ]
     rej = chk.validate("AllocateTrace", "AllocateTrace.cfg", [c[0] for c in cases])
     got = {id(t): cl for t, _, cl in rej}
